@@ -568,6 +568,10 @@ func (mw *TinkEncryptionPartStoreMiddleware) GetPart(ctx context.Context, tx dat
 		decryptReader, err := dekStreamingAEAD.NewDecryptingReader(rc, partId.Bytes())
 		if err != nil {
 			closeUnderlying()
+			if err == io.EOF {
+				// missing tink stream header: truncated part, not an empty one
+				err = io.ErrUnexpectedEOF
+			}
 			return nil, err
 		}
 
@@ -584,8 +588,14 @@ func (mw *TinkEncryptionPartStoreMiddleware) GetPart(ctx context.Context, tx dat
 // begins.
 func (mw *TinkEncryptionPartStoreMiddleware) readPartHeaderAndDEK(rc io.Reader, partId partstore.PartId) ([]byte, int, int64, error) {
 	// Read the header length (4 bytes big-endian)
+	// A stored part always starts with the header; running out of bytes here
+	// means the part is truncated, which must not surface as a clean io.EOF
+	// (the lazy readers hand this error to the caller's Read).
 	lengthBytes := make([]byte, 4)
 	if _, err := io.ReadFull(rc, lengthBytes); err != nil {
+		if err == io.EOF {
+			err = io.ErrUnexpectedEOF
+		}
 		return nil, 0, 0, err
 	}
 
@@ -594,6 +604,9 @@ func (mw *TinkEncryptionPartStoreMiddleware) readPartHeaderAndDEK(rc io.Reader, 
 	// Read and parse the header
 	headerBytes := make([]byte, headerLen)
 	if _, err := io.ReadFull(rc, headerBytes); err != nil {
+		if err == io.EOF {
+			err = io.ErrUnexpectedEOF
+		}
 		return nil, 0, 0, err
 	}
 
